@@ -8,7 +8,8 @@ import hashlib, itertools, math, os, sys, zlib
 sys.path.insert(0, os.path.join(os.path.dirname(os.path.abspath(__file__)), "..", "lib"))
 import yv
 
-BUFS = [b"\x00" * 6, bytes(range(1, 7)), b"\xff\x80\x90\xfe\x81\xa0", b"aaaaaa", b"abcabc", b"\x00\xff\x00\xff\x00\xff", b"a\x00b", b"Z", b"\x7f\x80", b"hello"]
+# the two buffers after the first are points exactly ON the Monte-Carlo circle (x^2 + y^2 == r^2: axis point and the 3-4-5 lattice point)
+BUFS = [b"\x00" * 6, b"\xff\xff\xff\x00\x00\x00", b"\x99\x99\x99\xcc\xcc\xcc", bytes(range(1, 7)), b"\xff\x80\x90\xfe\x81\xa0", b"aaaaaa", b"abcabc", b"\x00\xff\x00\xff\x00\xff", b"a\x00b", b"Z", b"\x7f\x80", b"hello"]
 
 
 def addr_map(data, layout):
@@ -221,7 +222,7 @@ def main():
     quick = ck.tier == "quick"
     jobs = []
     ncases = 0
-    bufs = BUFS if not quick else BUFS[:7]
+    bufs = BUFS if not quick else BUFS[:9]
     if not quick:
         bufs = bufs + [bytes(range(200, 208)), b"abcdefg"]
     for data in bufs:
